@@ -25,10 +25,10 @@ def tla_set(xs):
     return '{' + ', '.join('"%s"' % x for x in xs) + '}'
 
 
-def model(rep, max_src, max_tgt, aggs, shapes, name):
+def model(rep, max_src, max_tgt, aggs, shapes, name, neg='FALSE'):
     wd = tlc.workdir('c11')
     cfg = tlc.write_cfg(os.path.join(wd, 'pj.cfg'), constants={'MaxSrc': max_src, 'MaxTgt': max_tgt, 'Aggs': tla_set(aggs),
-                        'Modes': tla_set(['inner', 'half-outer', 'full-outer']), 'KeyShapes': tla_set(shapes)},
+                        'Modes': tla_set(['inner', 'half-outer', 'full-outer']), 'KeyShapes': tla_set(shapes), 'NegVals': neg},
                         invariants=['StreamingMeetsDefinition', 'DedupMeetsDefinition'], constraints=['Export'])
     res = tlc.run_tlc('ProcJoin', cfg, workers=1, allow_violation=False, timeout=7200)
     rep.add_tlc(res, name)
@@ -240,7 +240,7 @@ def validate(rep, recs):
     wd = tlc.workdir('c11t')
     tf = tlc.write_ndjson(os.path.join(wd, 'recs.ndjson'), recs)
     cfg = tlc.write_cfg(os.path.join(wd, 'tr.cfg'), spec='TSpec', constraints=['Verdict'], constants={
-        'MaxSrc': 0, 'MaxTgt': 0, 'Aggs': tla_set(AGGS), 'Modes': tla_set(['inner']), 'KeyShapes': tla_set(['field'])})
+        'MaxSrc': 0, 'MaxTgt': 0, 'Aggs': tla_set(AGGS), 'Modes': tla_set(['inner']), 'KeyShapes': tla_set(['field']), 'NegVals': 'FALSE'})
     res = tlc.run_tlc('JoinTrace', cfg, workers=1, env={'TRACE_FILE': tf}, allow_violation=False, timeout=3000)
     rep.add_tlc(res, 'JoinTrace: %d recorded joins of random tables (<= 12 rows)' % len(recs))
     out = {v[0]: (v[1], v[2]) for v in res.tuples('VERDICT')}
@@ -257,6 +257,9 @@ def run():
     n = 2 if t == 'quick' else 3
     cases = model(rep, n, 2, AGGS, ['field'], 'ProcJoin all 12 aggregators x 3 modes, <=%d source x <=2 target rows: streaming = declarative' % n)
     cases2 = model(rep, 2, 2, ['first', 'count', 'sum', 'array'], ['rownum'], 'ProcJoin key = row number')
+    # a running aggregate that is exactly 0 followed by a NEGATIVE value (0 is falsy: "no value yet" must be tested with None)
+    cases3 = model(rep, n, 1, ['min', 'max', 'first', 'last', 'any', 'set', 'array', 'counters', 'count'], ['field'],
+                    'ProcJoin order/collection aggregators over the values {0, -1, null}', neg='TRUE')
     items = []
     for c in cases:
         if t == 'quick' and r.random() > 0.2:
@@ -270,6 +273,10 @@ def run():
         if t == 'quick' and r.random() > 0.3:
             continue
         items.append(dict(case=c, variant=dict(shape='rownum', source_delete=True, wildcard=False)))
+    for c in cases3:
+        if len(c['src']) < 2 or (t == 'quick' and r.random() > 0.5):
+            continue
+        items.append(dict(case=c, variant=dict(shape=r.choice(['list', 'format']), source_delete=r.random() < 0.7, wildcard=False)))
     res = pmap(replay_case, items, chunksize=32)
     errs = harness_errors(res)
     if errs:
